@@ -74,7 +74,11 @@
 EXTENDS Integers, Sequences, FiniteSets, TLC
 
 CONSTANTS MaxMsg,   \* maxMsgSizeBytes: largest payload Encode writes / Decode allocates
-          HdrSz     \* bytes of crc + length in front of every payload (8; 0 in unit-size models)
+          HdrSz,    \* bytes of crc + length in front of every payload (8; 0 in unit-size models)
+          WritesPerRecord  \* number of Group.Write calls by which WALEncoder.Encode hands ONE record to
+                           \* the group: 1 as implemented (one buffer crc|length|payload, one Write);
+                           \* 2 = the header and the payload separately (companion model, see WriteTick)
+ASSUME WritesPerRecord \in {1, 2}
 
 FrameKeeping == {"crc", "body"}                       \* next record still found at its place
 FrameLosing  == {"lenS", "lenL", "lenH"}              \* reader is somewhere inside the bytes
@@ -84,7 +88,10 @@ CutClasses   == {"cut1_3", "cut4", "cut5_7", "cut8", "cutBody", "cutZero"} \cup 
 JunkClasses  == {"j3", "j7", "j8"}
 FlipClasses  == FrameKeeping \cup FrameLosing
 
-Slot(id, k, h, sz, d) == [id |-> id, k |-> k, h |-> h, sz |-> sz, d |-> d]
+(* pc: which bytes of the record this entry stands for -- "all", or (WritesPerRecord = 2   *)
+(* only, when a rotation came between the two group writes of the record) "hdr" = the 8    *)
+(* bytes crc|length at the END of a file, "pay" = the payload at the START of the next.    *)
+Slot(id, k, h, sz, d) == [id |-> id, k |-> k, h |-> h, sz |-> sz, d |-> d, pc |-> "all"]
 Junk(c)               == Slot(0, "junk", 0, 0, c)
 
 (***************************************************************************)
@@ -108,20 +115,37 @@ New(limit) == [files |-> << <<>> >>, buf |-> <<>>, next |-> 1, limit |-> limit, 
 
 NFiles(w)   == Len(w.files)
 HeadF(w)    == w.files[NFiles(w)]
+PieceSz(x)  == IF x.pc = "all" THEN HdrSz + x.sz ELSE IF x.pc = "hdr" THEN HdrSz ELSE x.sz
 RECURSIVE SumSz(_)
-SumSz(f)    == IF f = <<>> THEN 0 ELSE HdrSz + Head(f).sz + SumSz(Tail(f))
+SumSz(f)    == IF f = <<>> THEN 0 ELSE PieceSz(Head(f)) + SumSz(Tail(f))
 HeadDisk(w) == SumSz(HeadF(w))          \* AutoFile.Size(): what stat() says, buffered data excluded
 
 St(w, r)    == [st |-> w, res |-> r]
 
+(* bytes are bytes: the header of a record directly followed by its payload IS the record *)
+Fits2(a, b) == a.id = b.id /\ a.pc = "hdr" /\ b.pc = "pay"
+JoinP(a, b) ==
+  IF a # <<>> /\ b # <<>> /\ Fits2(a[Len(a)], b[1])
+  THEN SubSeq(a, 1, Len(a) - 1) \o <<[b[1] EXCEPT !.pc = "all"]>> \o Tail(b)
+  ELSE a \o b
+
 (* Group.FlushAndSync: headBuf.Flush(); Head.Sync() *)
-Flush(w) == [w EXCEPT !.files[NFiles(w)] = @ \o w.buf, !.buf = <<>>]
+Flush(w) == [w EXCEPT !.files[NFiles(w)] = JoinP(@, w.buf), !.buf = <<>>]
+
+(* ONE Group.Write (g.mtx held for this call only): group write n of the record goes to *)
+(* the bufio buffer.                                                                   *)
+Piece(n)    == IF WritesPerRecord = 1 THEN "all" ELSE IF n = 1 THEN "hdr" ELSE "pay"
+GroupWrite(w, x, n) == [w EXCEPT !.buf = JoinP(@, <<[x EXCEPT !.pc = Piece(n)]>>)]
+RECURSIVE GroupWrites(_, _, _, _)
+GroupWrites(w, x, from, to) == IF from > to THEN w ELSE GroupWrites(GroupWrite(w, x, from), x, from + 1, to)
 
 (* WALEncoder.Encode through BaseWAL.Write: a payload above MaxMsg is refused and      *)
-(* nothing is written; otherwise the record goes to the buffer.  No fsync.              *)
+(* nothing is written; otherwise the record goes to the buffer, by WritesPerRecord     *)
+(* group writes.  No fsync.  (Nothing comes between the group writes here; what the    *)
+(* group's ticker does when it comes between them is WriteTick below.)                 *)
 Write(w, k, h, sz) ==
   IF sz > MaxMsg THEN St(w, "toobig")
-  ELSE St([w EXCEPT !.buf = Append(@, Slot(w.next, k, h, sz, "ok")), !.next = @ + 1], "ok")
+  ELSE St(GroupWrites([w EXCEPT !.next = @ + 1], Slot(w.next, k, h, sz, "ok"), 1, WritesPerRecord), "ok")
 
 (* BaseWAL.WriteSync = Write; FlushAndSync (not reached when Write fails) *)
 WriteSync(w, k, h, sz) ==
@@ -135,6 +159,32 @@ Rotate(w) == [Flush(w) EXCEPT !.files = Append(@, <<>>)]
 (* FILE (buffered records do not count) with the limit.                                *)
 Tick(w) ==
   IF w.limit # 0 /\ HeadDisk(w) >= w.limit THEN St(Rotate(w), "rot") ELSE St(w, "no")
+
+(***************************************************************************)
+(* The group's ticker is a goroutine of its own: checkHeadSizeLimit takes   *)
+(* g.mtx in RotateFile, Group.Write takes it per call, nothing else orders  *)
+(* them.  So the check can also run INSIDE one BaseWAL.Write, after any of  *)
+(* its group writes (and, for WriteSync, in front of the FlushAndSync).     *)
+(* WriteTick = group writes 1..g, checkHeadSizeLimit, group writes g+1...   *)
+(* With WritesPerRecord = 1 the record is in the buffer when the check      *)
+(* runs, RotateFile flushes it into the old head, and this is Write; Tick.  *)
+(* With WritesPerRecord = 2 and g = 1 the old head gets the header, the     *)
+(* payload goes to the next file: that file starts in the middle of a       *)
+(* frame.  The GroupReader that reads on from the old file splices the      *)
+(* record together again, a reader opened at the new file (every file index *)
+(* SearchForEndHeight tries; repairWalFile on the head) meets payload bytes *)
+(* where a checksum should be.  FilesStartAtFrame (below) is the invariant  *)
+(* the per-file readers rely on; it holds for WritesPerRecord = 1 and TLC   *)
+(* refutes it for 2 (companion run of checks/C15.py).  The driver binds the *)
+(* assumption: it runs checkHeadSizeLimit from a hook at the end of         *)
+(* Group.Write, at every group-write position of a real message.            *)
+(***************************************************************************)
+WriteTick(w, k, h, sz, g, sync) ==
+  LET x  == Slot(w.next, k, h, sz, "ok")
+      w1 == GroupWrites([w EXCEPT !.next = @ + 1], x, 1, g)
+      t  == Tick(w1)
+      w2 == GroupWrites(t.st, x, g + 1, WritesPerRecord) IN
+  [st |-> IF sync THEN Flush(w2) ELSE w2, mid |-> w1, tick |-> t.res]
 
 (* Group.checkTotalSizeLimit (run by the same ticker): while the files of the group    *)
 (* (buffered records do not count) hold totalSizeLimit bytes or more, remove the       *)
@@ -185,9 +235,19 @@ Garbage(w, f, c) == [w EXCEPT !.files[f] = Append(@, Junk(c))]
 (* WALDecoder.Decode, iterated.                                             *)
 (***************************************************************************)
 RECURSIVE Cat(_, _)
-Cat(files, i) == IF i > Len(files) THEN <<>> ELSE files[i] \o Cat(files, i + 1)
+Cat(files, i) == IF i > Len(files) THEN <<>> ELSE JoinP(files[i], Cat(files, i + 1))
+(* What a reader makes of a piece of a record that is not completed by the bytes       *)
+(* around it: a header alone is a record cut behind its header ("cut8"); a payload     *)
+(* alone is "mid": bytes that begin in the middle of a frame (like junk of 8 bytes or  *)
+(* more: a corruption error, and the framing is lost).                                 *)
+Seen(s) == [p \in 1..Len(s) |-> IF s[p].pc = "all" THEN s[p]
+                                ELSE [s[p] EXCEPT !.d = IF s[p].pc = "hdr" THEN "cut8" ELSE "mid"]]
 (* what a GroupReader opened at file index i delivers: files i, i+1, ..., head         *)
-Stream(w, i) == Cat(w.files, i)
+Stream(w, i) == Seen(Cat(w.files, i))
+(* one file on its own (os.File) *)
+File(w, f)   == Seen(w.files[f])
+(* every file of the group begins at a record boundary *)
+FilesStartAtFrame(w) == \A f \in 1..NFiles(w) : w.files[f] = <<>> \/ w.files[f][1].pc # "pay"
 
 (* The damaged slot is the LAST thing in the stream: what the Decode call that meets   *)
 (* it returns.  "ok" = the written message, unchanged.  (Decode, step by step:         *)
@@ -229,7 +289,7 @@ Isolated(w) == LET s == Stream(w, 1) IN \A p \in 1..(Len(s) - 1) : s[p].d = "ok"
 (* every record of the group through a GroupReader (what catchupReplay's loop does     *)
 (* with the reader it got from SearchForEndHeight), and one file through os.File       *)
 ReadAll(w)     == ReadFrom(Stream(w, 1), 1, "group")
-ReadFile(w, f) == ReadFrom(w.files[f], 1, "file")
+ReadFile(w, f) == ReadFrom(File(w, f), 1, "file")
 
 (***************************************************************************)
 (* BaseWAL.SearchForEndHeight(height, &WALSearchOptions{ign}).              *)
@@ -257,7 +317,7 @@ ReadFile(w, f) == ReadFrom(w.files[f], 1, "file")
 (* zero bytes are a frame of length 0, which the group reader refuses       *)
 (* after having consumed precisely those eight bytes).                      *)
 (***************************************************************************)
-Skip(d) == IF d \in {"lenS", "lenH"} \cup JunkClasses THEN 1 ELSE 2
+Skip(d) == IF d \in {"lenS", "lenH", "mid"} \cup JunkClasses THEN 1 ELSE 2
 Resume(s, p, n) == (IF p + n > Len(s) + 1 THEN Len(s) + 1 ELSE p + n)..(Len(s) + 1)
 Out(t, p, l) == [t |-> t, p |-> p, l |-> l]
 
@@ -301,6 +361,8 @@ Search(w, h, ign) == SearchIdx(w, NFiles(w), -1, h, ign)
 (* slot p, D[p] = outcomes of one that lost the framing and may resume at   *)
 (* any boundary >= p.  `Inherit' stands for "the lastHeightFound the reader *)
 (* came with".  MC_WAL checks SearchDP = Search in every reachable state.   *)
+(* Precondition: FilesStartAtFrame (otherwise Stream(w, i) is not a suffix   *)
+(* of Stream(w, 1)); WALTrace checks it in every state.                      *)
 (***************************************************************************)
 Inherit == -2
 Bind(S, l) == IF l = Inherit THEN S ELSE {IF o.t = "eof" /\ o.l = Inherit THEN Out("eof", 0, l) ELSE o : o \in S}
@@ -379,7 +441,8 @@ ValidPrefix(f) == SubSeq(Ids(f), 1, Whole(f, "file"))
 (* order, none twice                                                                   *)
 Increasing(ids) == \A a \in 1..(Len(ids) - 1) : ids[a] < ids[a + 1]
 RealIds(s)   == SelectSeq(Ids(s), LAMBDA x : x # 0)
-OrderKept(w) == Increasing(RealIds(Stream(w, 1) \o w.buf))
+AllRecs(w)   == JoinP(Cat(w.files, 1), w.buf)     \* on disk, then buffered
+OrderKept(w) == Increasing(RealIds(AllRecs(w)))
 
 (* reading returns exactly the records in front of the first damage, never a damaged   *)
 (* one, and ends with EOF or a corruption error; an undamaged log is returned whole    *)
@@ -388,7 +451,7 @@ ReadExact(w) ==
       r == ReadAll(w) IN
   /\ r.ids = SubSeq(Ids(s), 1, Whole(s, "group"))
   /\ Intact(s) => r.end = "eof"
-  /\ \A f \in 1..NFiles(w) : ReadFile(w, f).ids = ValidPrefix(w.files[f])
+  /\ \A f \in 1..NFiles(w) : ReadFile(w, f).ids = ValidPrefix(File(w, f))
 
 (* a change of bits is never taken for the end of the log *)
 FlipsReported(w) ==
@@ -428,7 +491,7 @@ Missed(w, Hs) == {h \in Hs : Intact(Stream(w, 1)) /\ Markers(w, h) # {} /\ Res("
 
 (* repair keeps exactly the longest valid prefix of the file *)
 RepairExact(w) == \A f \in 1..NFiles(w) :
-   /\ RepairKeep(w, f) = ValidPrefix(w.files[f])
+   /\ RepairKeep(w, f) = ValidPrefix(File(w, f))
    /\ Intact(Repair(w, f).files[f])
    /\ IsPrefix(Ids(Repair(w, f).files[f]), Ids(w.files[f]))
 ==============================================================================
